@@ -20,6 +20,9 @@ func init() {
 const tIK = "leveldb.internalKey"
 
 func runC15(p *Prog, r *Report) {
+	if want("C15.8") {
+		ruleOptGetters(p, r, "C15.8", "the comparer in force", "Options.GetComparer")
+	}
 	if want("C15.7") {
 		// (shared with C19) internal key validity
 		ruleValidKeyAgreesWithParse(p, r, "C15.7")
